@@ -30,7 +30,7 @@ func familyDiscovery(t *testing.T) {
 	rng := T.rng
 	synctest.Test(t, func(t *testing.T) {
 		defer guard()
-		nScen := T.size(60, 500)
+		nScen := T.size(60, 160)
 		for sc := 0; sc < nScen; sc++ {
 			// ---- the fault script
 			n := []int{0, 1, 3, 4, 5, 6, 9, 10, 11, 17, 26, 40}[rng.Intn(12)]
